@@ -348,4 +348,135 @@ theorem convAppendTag_eq (buf : Bytes) (num : Int) (typ : Nat) :
   obtain ⟨r, hr, he⟩ := convLoop_eq 11 buf (encodeTag num typ) (by have := encodeTag_lt64 num typ; omega) (by omega)
   simp [hr, tag, he]
 
+theorem sliceFrom_ok (b : Bytes) (n : Int) (h0 : 0 ≤ n) (h1 : n ≤ b.length) :
+    Go.sliceFrom b n = .ok (b.drop n.toNat) := by
+  unfold Go.sliceFrom; rw [if_pos ⟨h0, h1⟩]
+
+/-- the non-group arms of the translated `consumeFieldValueD` -/
+theorem cfvD_scalar (num : Int) (typ : Nat) (b : Bytes) (depth : Int) (g : Nat) (h3 : typ ≠ 3)
+    (hb : b.length < 9223372036854775808) :
+    GoSrc.Wire.consumeFieldValueD num typ b depth (g + 1) = .ok (consumeScalarValue typ b) := by
+  unfold GoSrc.Wire.consumeFieldValueD consumeScalarValue
+  simp only [consumeVarint_eq, consumeFixed32_eq, consumeFixed64_eq, consumeBytes_eq b hb, Res.bind_ok]
+  by_cases h0 : typ = 0
+  · subst h0; rfl
+  by_cases h5 : typ = 5
+  · subst h5; rfl
+  by_cases h1 : typ = 1
+  · subst h1; rfl
+  by_cases h2 : typ = 2
+  · subst h2; rfl
+  by_cases h4 : typ = 4
+  · subst h4; rfl
+  simp only [h0, h5, h1, h2, h3, h4, if_false]
+  rfl
+
+theorem cfvD_depth (num : Int) (b : Bytes) (depth : Int) (g : Nat) (hd : depth < 0) :
+    GoSrc.Wire.consumeFieldValueD num 3 b depth (g + 1) = .ok errRecursionDepth := by
+  unfold GoSrc.Wire.consumeFieldValueD
+  simp [hd, errRecursionDepth]
+
+theorem cfvD_group (num : Int) (b : Bytes) (depth : Int) (g : Nat) (hd : ¬ depth < 0) :
+    GoSrc.Wire.consumeFieldValueD num 3 b depth (g + 1) =
+      (do let x ← GoSrc.Wire.consumeFieldValueD.loop1 num (Go.len b) depth g b
+          match x.1 with
+          | some rv => pure rv
+          | none => Res.panic "unreachable: infinite loop exited") := by
+  conv => lhs; unfold GoSrc.Wire.consumeFieldValueD
+  simp [hd]
+  rfl
+
+theorem loop1_succ (num n0 depth : Int) (g : Nat) (b : Bytes) :
+    GoSrc.Wire.consumeFieldValueD.loop1 num n0 depth (g + 1) b =
+      (if (consumeTag b).2.2 < 0 then .ok (some (consumeTag b).2.2, b)
+       else do
+        let b1 ← Go.sliceFrom b (consumeTag b).2.2
+        if (consumeTag b).2.1 = 4 then
+          (if num ≠ (consumeTag b).1 then .ok (some (-5), b1) else .ok (some (n0 - Go.len b1), b1))
+        else do
+          let m ← GoSrc.Wire.consumeFieldValueD (consumeTag b).1 (consumeTag b).2.1 b1 (depth - 1) g
+          if m < 0 then .ok (some m, b1)
+          else do
+            let b2 ← Go.sliceFrom b1 m
+            GoSrc.Wire.consumeFieldValueD.loop1 num n0 depth g b2) := by
+  conv => lhs; unfold GoSrc.Wire.consumeFieldValueD.loop1
+  simp only [consumeTag_eq, Res.bind_ok]
+  rfl
+
+theorem loop_tie (hf : Nat) : ∀ (gf : Nat) (num : Int) (b : Bytes) (depth n0 : Int),
+    b.length < 9223372036854775808 → b.length < hf → 2 * hf ≤ gf → (b.length : Int) ≤ n0 →
+    ∃ b', GoSrc.Wire.consumeFieldValueD.loop1 num n0 depth gf b
+      = .ok (some (groupLoop hf num b depth (n0 - b.length)), b') := by
+  induction hf with
+  | zero => intro gf num b depth n0 _ h; omega
+  | succ f ih =>
+    intro gf num b depth n0 hb hlen hgf hn0
+    obtain ⟨g, rfl⟩ : ∃ g, gf = g + 1 := ⟨gf - 1, by omega⟩
+    rw [loop1_succ, groupLoop_succ]
+    by_cases hneg : (consumeTag b).2.2 < 0
+    · exact ⟨b, by simp [hneg]⟩
+    have hp := consumeTag_progress b (by omega)
+    simp only [hneg, if_false, sliceFrom_ok b _ (by omega) hp.2.1, Res.bind_ok]
+    generalize hb1 : b.drop (consumeTag b).2.2.toNat = b1
+    have hb1len : (b1.length : Int) = b.length - (consumeTag b).2.2 := by
+      rw [← hb1, List.length_drop]; omega
+    by_cases h4 : (consumeTag b).2.1 = 4
+    · simp only [h4, if_true]
+      by_cases hnum : num ≠ (consumeTag b).1
+      · exact ⟨b1, by simp [hnum, errEndGroup]⟩
+      · refine ⟨b1, ?_⟩
+        simp only [hnum, if_false, Go.len]
+        congr 3; omega
+    simp only [h4, if_false]
+    -- the nested value
+    have hm : GoSrc.Wire.consumeFieldValueD (consumeTag b).1 (consumeTag b).2.1 b1 (depth - 1) g
+        = .ok (groupM f b depth) := by
+      obtain ⟨g', rfl⟩ : ∃ g', g = g' + 1 := ⟨g - 1, by omega⟩
+      unfold groupM
+      rw [hb1]
+      by_cases h3 : (consumeTag b).2.1 = 3
+      · rw [h3]
+        simp only [if_true]
+        by_cases hd : depth - 1 < 0
+        · rw [cfvD_depth _ _ _ _ hd]; simp [hd]
+        · rw [cfvD_group _ _ _ _ hd]
+          obtain ⟨b', hb'⟩ := ih g' (consumeTag b).1 b1 (depth - 1) (Go.len b1) (by omega) (by omega) (by omega) (by simp [Go.len])
+          rw [hb']
+          simp [hd, Go.len]
+      · rw [cfvD_scalar _ _ _ _ _ h3 (by omega)]
+        simp [h3]
+    rw [hm]
+    simp only [Res.bind_ok]
+    by_cases hmneg : groupM f b depth < 0
+    · exact ⟨b1, by simp [hmneg]⟩
+    simp only [hmneg, if_false]
+    have hmp : groupM f b depth ≤ b1.length := by
+      have := groupM_progress f b depth (by omega)
+      rw [hb1] at this
+      omega
+    rw [sliceFrom_ok b1 _ (by omega) hmp]
+    simp only [Res.bind_ok]
+    have hl2 : ((b1.drop (groupM f b depth).toNat).length : Int) = b1.length - groupM f b depth := by
+      rw [List.length_drop]; omega
+    obtain ⟨b', hb'⟩ := ih g num (b1.drop (groupM f b depth).toNat) depth n0 (by omega) (by omega) (by omega) (by omega)
+    refine ⟨b', ?_⟩
+    rw [hb']
+    congr 4
+    omega
+
+/-- `ConsumeFieldValue` as translated from wire.go (recursive `consumeFieldValueD`, infinite `for`
+loop with returns, group recursion limit) equals the model, for every input shorter than 2^63 -/
+theorem consumeFieldValue_eq (num : Int) (typ : Nat) (b : Bytes) (hb : b.length < 9223372036854775808) :
+    GoSrc.Wire.consumeFieldValue num typ b = .ok (Wire.consumeFieldValue num typ b) := by
+  unfold GoSrc.Wire.consumeFieldValue
+  have e : 2 * b.length + 3 = (2 * b.length + 2) + 1 := by omega
+  rw [e]
+  by_cases h3 : typ = 3
+  · subst h3
+    rw [cfvD_group _ _ _ _ (by decide), consumeFieldValue_group]
+    obtain ⟨b', hb'⟩ := loop_tie (b.length + 1) (2 * b.length + 2) num b 10000 (Go.len b) hb (by omega) (by omega) (by simp [Go.len])
+    rw [hb']
+    simp [Go.len, defaultRecursionLimit]
+  · rw [cfvD_scalar _ _ _ _ _ h3 hb, consumeFieldValue_scalar _ _ _ h3]
+
 end Pico.GoTie.W
